@@ -421,3 +421,46 @@ prop("C18",
      COMMON_ASSUMPTIONS, "DESIGN.md section 4, C18",
      technique="all-paths return analysis + sanitiser-coverage census + truth-table folding of unit tables + control dependence of CSV rows",
      level_text="Static guarantee of the structural clauses of each export path; equality of exported cells with the curves is not executed.")
+
+
+# clauses added after the second seeding round (DESIGN.md 7.3 / 7.4); appended to the explanations above
+ALSO = {
+    "C01": "Also: the numeric null list applied to the flat token array (every column, index included) is get_substitutions' "
+           "result untouched - the header NULL never enters it (NULL.FLAT); the read substitutions have the documented "
+           "patterns, so an exponent such as 2.5e-03 is never split (DATA.READ-SUBS); positional access to curves[i] is not "
+           "captured by digit-string mnemonics because mnemonic_compare never coerces its arguments (SI.COMPARE).",
+    "C02": "Also: NULL.FLAT (the reference engine must not null the index), DATA.SPLIT (SPACE/TAB splitting merges delimiter "
+           "runs like genfromtxt does), LINE.EFFECTS (comment/blank lines have no effect on sniffing).",
+    "C03": "Also: HDR.NO-STATE (no parsed field leaks from one header line to the next), PK.STATE (the deep copy of ~Version "
+           "that is written keeps original mnemonics), HDR.FINITE / HDR.CURVE-RAW (non-numeric text is kept verbatim, the "
+           "conversion follows the value/description order).",
+    "C04": "Also: HDR.NO-STATE (the result dict of read_header_line is built per call; fields absent from a form are empty, not "
+           "inherited from the previous line).",
+    "C05": "Also: SEC.TYPE - determine_section_type folded over 21 probe titles (both cases of ~A/~O, custom titles containing "
+           "'_data', LAS 3 data sections) must give the documented kind.",
+    "C06": "Also: NULL.FLAT - the header NULL is never added to the flat numeric null list, which would null the index.",
+    "C07": "Also: SEC.END-TEST (the sniffer counts physical lines), SI.COMPARE (curves[i] by position), LINE.EFFECTS.",
+    "C08": "Also: ORD.BIJECTION and the extended HDR.CURVE-RAW - the value handed to HeaderItem passes through num(), the "
+           "description never does, and no parsed field is rewritten before the value/description order is resolved.",
+    "C09": "Also: DATA.ORIENT (a trailing blank line cannot transpose a single row), LINE.EFFECTS (hyphen census and token "
+           "counts only for content lines), DATA.READ-SUBS.",
+    "C11": "Also: HDR.STRIP (a unit loses all trailing dots at once, not one per cycle), ORD.KEY-NORM / ORD.BIJECTION (value and "
+           "description cannot swap on every cycle), DATA.WRAP-COUNT / WR.WRAP-TOKENS (wrapped output re-reads with the same shape).",
+    "C12": "Also: WR.TEMPLATE (both layouts write the fields verbatim - no `x or ''` that drops 0 in one layout only) and the "
+           "extended HDR.CURVE-RAW (numbers are converted after the order swap, identically for 1.2 and 2.0 layouts).",
+    "C13": "Also: SI.COMPARE, PK.STATE (copies keep original mnemonics, so blanks and duplicates survive the written deep copy), "
+           "WR.ORIG-MNEM.",
+    "C14": "Also: SI.COMPARE and SI.ACCESSORS - integer keys address positions (no coercion of keys to str), LF.ROUTE checks that "
+           "a negative index is normalised before the deletion.",
+    "C16": "Also: WR.SNAPSHOT - index_initial is an independent copy of the index (an alias would hide in-place edits); every path "
+           "through update_units_from_index_curve aligns all three units; a two-sample index still gets its STEP.",
+    "C17": "Also: PK.CTOR (constructors store their arguments verbatim - no dtype conversion on rebuild), PK.INDEPENDENT (a "
+           "__deepcopy__ override must deep-copy its fields), SI.SUFFIX-ALGO (re-appending on deepcopy cannot strip or alter "
+           "session names of unique items).",
+    "C18": "Also: EX.JSON-KEYS (dictview is keyed by session mnemonics, one entry per item), EX.TABLE-LITERALS (no implicit "
+           "string concatenation inside DEPTH_UNITS).",
+    "C19": "Also: HDR.FLAG-FORWARD (read() forwards ignore_header_errors unchanged for every section) and SEC.END-TEST on the "
+           "header loop (an error handler cannot advance the line counter, which would drop the last lines of the section).",
+}
+for _pid, _txt in ALSO.items():
+    PROPS[_pid]["explanation"] += " " + _txt
